@@ -320,9 +320,9 @@ func sexprValue(v interface{}) string {
 // Check decides satisfiability of a conjunction during execution (feasibility of a path).
 func (p *SolverProc) Check(x *Exec, conds []*Term, wantModel bool, timeoutMs int) (string, map[string]string) {
 	be := x.eng.FeasBackend
-	q := BuildQuery(x.ts, be, "feas", conds, nil, nil)
+	q := BuildQuery(x.ts, be, "feas", conds, nil, nil, 0)
 	if q.Err != nil && be == BackendINT {
-		q = BuildQuery(x.ts, BackendBV, "feas", conds, nil, nil)
+		q = BuildQuery(x.ts, BackendBV, "feas", conds, nil, nil, 0)
 	}
 	if q.Err != nil {
 		return "unknown", nil
@@ -385,20 +385,19 @@ func (p *SolverProc) CheckValue(x *Exec, conds []*Term, t *Term, timeoutMs int) 
 // ---------------------------------------------------------------- portfolio for obligations
 
 type Portfolio struct {
-	procs []*SolverProc
+	cfgs  []SolverConfig
+	procs [][]*SolverProc // [script profile][config]
 }
 
 func NewPortfolio(cfgs []SolverConfig) *Portfolio {
-	pf := &Portfolio{}
-	for _, c := range cfgs {
-		pf.procs = append(pf.procs, NewSolverProc(c))
-	}
-	return pf
+	return &Portfolio{cfgs: cfgs}
 }
 
 func (pf *Portfolio) Close() {
-	for _, p := range pf.procs {
-		p.Close()
+	for _, row := range pf.procs {
+		for _, p := range row {
+			p.Close()
+		}
 	}
 }
 
@@ -408,48 +407,65 @@ type Verdict struct {
 	Model   map[string]string
 	Seconds float64
 	Errors  []string
+	Profile int
 }
 
-// Solve races all configurations on the script; the first definitive answer wins and the others are
-// interrupted.  Any (error line makes that configuration's answer inconclusive.
-func (pf *Portfolio) Solve(script string, vars []string, budgetsMs []int) Verdict {
+// Solve races all (encoding profile x solver configuration) pairs on equivalent scripts of one obligation; the
+// first definitive answer wins and the others are interrupted.  Any (error line makes that answer inconclusive.
+func (pf *Portfolio) Solve(scripts []string, vars []string, budgetsMs []int) Verdict {
 	t0 := time.Now()
 	budget := budgetsMs[len(budgetsMs)-1]
+	for len(pf.procs) < len(scripts) {
+		var row []*SolverProc
+		for _, c := range pf.cfgs {
+			row = append(row, NewSolverProc(c))
+		}
+		pf.procs = append(pf.procs, row)
+	}
 	type ans struct {
 		res   string
 		model map[string]string
 		name  string
-		idx   int
+		si, i int
 	}
-	ch := make(chan ans, len(pf.procs))
-	for i, p := range pf.procs {
-		go func(i int, p *SolverProc) {
-			res, m := p.RunScript(script, vars, budget)
-			ch <- ans{res, m, p.cfg.Name, i}
-		}(i, p)
+	n := 0
+	ch := make(chan ans, len(scripts)*len(pf.cfgs))
+	for si, script := range scripts {
+		for i, p := range pf.procs[si] {
+			n++
+			go func(si, i int, p *SolverProc, script string) {
+				res, m := p.RunScript(script, vars, budget)
+				ch <- ans{res, m, p.cfg.Name, si, i}
+			}(si, i, p, script)
+		}
 	}
 	var errs []string
-	got := make([]bool, len(pf.procs))
+	got := map[[2]int]bool{}
 	var win *ans
-	for n := 0; n < len(pf.procs); n++ {
+	for k := 0; k < n; k++ {
 		a := <-ch
-		got[a.idx] = true
+		got[[2]int{a.si, a.i}] = true
 		if strings.HasPrefix(a.res, "error") {
 			errs = append(errs, a.name+": "+a.res)
 		}
 		if (a.res == "sat" || a.res == "unsat") && win == nil {
 			w := a
 			win = &w
-			// interrupt the others
-			for j, p := range pf.procs {
-				if !got[j] {
-					p.Interrupt()
+			for si := range scripts {
+				for j, p := range pf.procs[si] {
+					if !got[[2]int{si, j}] {
+						p.Interrupt()
+					}
 				}
 			}
 		}
 	}
 	if win != nil {
-		return Verdict{Result: win.res, Solver: win.name, Model: win.model, Seconds: time.Since(t0).Seconds(), Errors: errs}
+		name := win.name
+		if win.si > 0 {
+			name += fmt.Sprintf("+profile%d", win.si)
+		}
+		return Verdict{Result: win.res, Solver: name, Model: win.model, Seconds: time.Since(t0).Seconds(), Errors: errs, Profile: win.si}
 	}
 	return Verdict{Result: "unknown", Seconds: time.Since(t0).Seconds(), Errors: errs}
 }
@@ -466,7 +482,7 @@ func (p *SolverProc) Interrupt() {
 // ---------------------------------------------------------------- obligation pool
 
 type solveJob struct {
-	script string
+	script []string
 	vars   []string
 	budget []int
 	out    chan Verdict
@@ -499,7 +515,7 @@ func NewSolvePool(n int, cfgs []SolverConfig) *SolvePool {
 	return sp
 }
 
-func (sp *SolvePool) Submit(script string, vars []string, budget []int) chan Verdict {
+func (sp *SolvePool) Submit(script []string, vars []string, budget []int) chan Verdict {
 	out := make(chan Verdict, 1)
 	sp.jobs <- solveJob{script, vars, budget, out}
 	return out
